@@ -105,6 +105,8 @@ type Exec struct {
 	dirty  map[string]bool
 	sorts  []sortEvent
 	rebinds map[ssa.Value][]rebind
+	inlines int
+	depth   int
 	invRecords []invRecord
 	extraInst  []Term
 	closures []*ssa.Function // function constants materialised by this activation
